@@ -244,3 +244,36 @@ for uid, mn, rd, mv in (('blk.copy_ctor', '_ZN4CDNS9CdnsBlockC1ERS0_', False, Fa
 from item_units import TRUSTED_BASE as _TB, ASSUMPTIONS as _AS
 TRUSTED_BASE = _TB + ['A7 BlockTable<T> as seen by CdnsBlock: a sequence in index order with size(); std::unordered_map iteration visits every entry once']
 ASSUMPTIONS = _AS + ['table and array sizes < 2^56', 'ticks_per_second >= 1']
+
+# ---------------------------------------------------------------- counters and the size test of CdnsBlock, and the counters the exporter reports (C12)
+_QN, _AN, _MN = '$this->m_query_responses.n', '$this->m_address_event_counts.n', '$this->m_malformed_messages.n'
+_MAX = '(unsigned long)$this->m_block_parameters.storage_parameters.max_block_items'
+_CNT_REQ = '\n__CPROVER_requires(__CPROVER_r_ok($this, sizeof(*$this)) && g_exc == 0 && %s < (1UL << 60) && %s < (1UL << 60) && %s < (1UL << 60))\n__CPROVER_assigns()\n' % (_QN, _AN, _MN)
+_SZ_STUBS = ['seq_[A-Za-z0-9_]+__size', 'umap_[A-Za-z0-9_]+__size', 'BlockTable_[A-Za-z]+__size']
+_CNT_SETUP = '  static struct CdnsBlock obj;\n  __CPROVER_assume(obj.m_query_responses.n < (1UL << 60) && obj.m_address_event_counts.n < (1UL << 60) && obj.m_malformed_messages.n < (1UL << 60));\n'
+for _fn, _ens, _note in (
+        ('get_item_count', '$ret == %s + %s + %s' % (_QN, _AN, _MN), 'the item count is the sum of the three item arrays'),
+        ('get_qr_count', '$ret == ' + _QN, 'number of buffered query/response records'),
+        ('get_aec_count', '$ret == ' + _AN, 'number of distinct buffered address-event keys'),
+        ('get_mm_count', '$ret == ' + _MN, 'number of buffered malformed messages'),
+        ('full', '($ret != 0) == (%s >= %s || %s >= %s || %s >= %s)' % (_QN, _MAX, _AN, _MAX, _MN, _MAX),
+         'full() is true exactly when one of the three item arrays has reached the maximum of the parameters in force (a maximum of 0: always)')):
+    UNITS.append(Unit('blk.' + _fn, ('CdnsBlock::' + _fn, None), contract=_CNT_REQ + '__CPROVER_ensures(g_exc == 0 && (%s))\n' % _ens, prelude=P, pre_c=PRE_C,
+                      extern_records=EXT, stubs=_SZ_STUBS, setup=_CNT_SETUP, args=['&obj'], props=['C12'], timeout=300, note=_note))
+SBP_C = '''
+__CPROVER_requires(__CPROVER_w_ok($this, sizeof(*$this)) && __CPROVER_r_ok($1, sizeof(*$1)) && g_exc == 0 && ''' + ' && '.join('%s < (1UL << 60)' % x for x in (_QN, _AN, _MN)) + ''')
+__CPROVER_assigns($this->m_block_parameters, $this->m_block_preamble.block_parameters_index)
+__CPROVER_ensures(g_exc == 0 && ($ret != 0) == (''' + '%s + %s + %s == 0' % (_QN, _AN, _MN) + '''))
+__CPROVER_ensures($ret != 0 ==> ($this->m_block_preamble.block_parameters_index.has && $this->m_block_preamble.block_parameters_index.val == $2))
+__CPROVER_ensures($ret != 0 ==> (''' + ' && '.join('$this->m_block_parameters.storage_parameters.%s == $1->storage_parameters.%s' % (f, f) for f in (
+    'ticks_per_second', 'max_block_items', 'storage_hints.query_response_hints', 'storage_hints.query_response_signature_hints', 'storage_hints.rr_hints',
+    'storage_hints.other_data_hints')) + '''))
+__CPROVER_ensures($ret == 0 ==> ($this->m_block_parameters.storage_parameters.max_block_items == @M0 && $this->m_block_preamble.block_parameters_index.has == @H0))
+'''
+UNITS.append(Unit('blk.set_block_parameters', ('CdnsBlock::set_block_parameters', None), contract=SBP_C, prelude=P, pre_c=PRE_C, extern_records=EXT,
+                  stubs=_SZ_STUBS + ['seq_[A-Za-z0-9_]+__assign'], inline=[('CdnsBlock::get_item_count', None)],
+                  auto_inline=[r'[A-Za-z]+__op_assign\w*'],
+                  ghost=[('unsigned long', 'M0', '$this->m_block_parameters.storage_parameters.max_block_items'), ('_Bool', 'H0', '$this->m_block_preamble.block_parameters_index.has')],
+                  setup=_CNT_SETUP + '  static struct BlockParameters bp; unsigned int a_i;\n', args=['&obj', '&bp', 'a_i'], props=['C12', 'C04'], timeout=300,
+                  note='the parameters of a block change only while it holds no item: then the block takes the given size limit, tick rate and hints and records the given index; '
+                       'otherwise nothing changes and false is returned'))
